@@ -500,6 +500,15 @@ def run(ctx):
         if not good and not cycles:
             violations.append({"what": "Properties/C20.v no longer checks against the regenerated lock relation: " + (mlog if not ok else prop["log"])[-600:],
                                "found_input": False, "replay_obj": {"broken": "theorem:Properties/C20.v", "kind": "static", "log": (mlog if not ok else prop["log"])[-4000:]}})
+        if not good and committed:
+            # the theorems do not hold of this tree's relation (reported below / above). The previous file is put back so that
+            # the shared Coq tree keeps building - a later run on a tree that is fine must not start from a rejected table; the
+            # rejected one stays in the work directory
+            open(os.path.join(wd, "LockEdges.rejected.v"), "w").write(vtext)
+            tmp = GEN + ".tmp%d" % os.getpid()
+            open(tmp, "w").write(committed)
+            os.replace(tmp, GEN)
+            coq_make(["Properties/%s.vo" % ID] + COQ_TARGETS)
     run_chk = coq_run_check(wd, rep, not cycles)
 
     def edge_objs(pairs):
